@@ -13,7 +13,7 @@ PROP = "C06"
 LEVEL = "exploration"
 RULE = ("seeded random histories (30-400 operations) over capacities 1-8 and 64 with a key universe of "
         "capacity+1..capacity+4 keys (ints, and mixed int/str/tuple keys): store, c[k], get, del, in, len, "
-        "list, keys, values, items, pop, popitem, clear, update, setdefault, == (dict / other cache). After "
+        "list, keys, values, items, nested (interleaved) view iterations, pop, popitem, clear, update, setdefault, == (dict / other cache). After "
         "every operation: result or exception class, len<=max_size, list(c) == model recency order, evicted key "
         "== model LRU; views/==/popitem must finish within 2000+200*(n+1)^2 repository statements and agree "
         "with the content. distinct_nontrivial = distinct (capacity, recency order, values) states with >=2 keys.")
@@ -27,7 +27,7 @@ NCASES = {"quick": 6000, "thorough": 150000}
 NSHARDS = 16
 SHARD_TIMEOUT = {"quick": 600, "thorough": 3600}
 
-OPS = ["set", "set", "set", "getitem", "getitem", "get", "del", "contains", "len", "list", "keys", "values", "items",
+OPS = ["set", "set", "set", "getitem", "getitem", "get", "del", "contains", "len", "list", "keys", "values", "items", "nested",
        "pop", "popitem", "clear", "update", "setdefault", "eq_dict", "eq_cache", "ne_dict"]
 MOD = "vf.checks.c06"
 
@@ -56,7 +56,7 @@ def gen_case(rng, tier, index):
     w["clear"] = 0.2
     viewless = index % 3 == 0  # exact recency all the way
     if viewless:
-        for o in ("values", "items", "eq_dict", "eq_cache", "ne_dict", "popitem", "setdefault", "contains", "clear"):
+        for o in ("values", "items", "eq_dict", "eq_cache", "ne_dict", "popitem", "setdefault", "contains", "clear", "nested"):
             w[o] = 0
     names = sorted(w)
     ops = []
@@ -246,6 +246,23 @@ def run_case(case, res):
                     {repr(p[0]): p[1] for p in got[1]} == {repr(kk): vv for kk, vv in m.val.items()}
             if not okv:
                 raise Violation("view-content", f"{op}() -> {got[1]!r} but the content is {m.val!r}", {})
+            res.count("views_completed")
+            adopt = "any"
+        elif op == "nested":
+            # two interleaved iterations over views of the same cache (all pairs): read-only use, must terminate and list
+            # every pair of present keys once
+            def all_pairs():
+                out = []
+                for a, va in (c.items() if aux % 2 else ((kk, c[kk]) for kk in c.keys())):
+                    for b2 in (c.values() if aux % 3 else c.keys()):
+                        out.append((a, va))
+                        if len(out) > (n + 1) ** 2 + 5:
+                            return out
+                return out
+            got = _guard("nested iteration over items()/values()", n * n + 2, all_pairs)
+            if got[0] != "ok" or len(got[1]) != n * n or sorted({repr(p[0]) for p in got[1]}) != sorted(map(repr, m.val)):
+                raise Violation("view-content", f"nested iteration over the views of a cache with {n} entries produced "
+                                f"{len(got[1]) if got[0] == 'ok' else got} pairs (expected {n * n}, every key {n} times)", {})
             res.count("views_completed")
             adopt = "any"
         elif op == "pop":
